@@ -37,9 +37,39 @@ def dedup(values):
 def cp(v):
     if isinstance(v, list):
         return [cp(x) for x in v]
+    if isinstance(v, collections.defaultdict):
+        return collections.defaultdict(v.default_factory, {k: cp(x) for k, x in v.items()})
+    if isinstance(v, collections.Counter):
+        return collections.Counter({k: cp(x) for k, x in v.items()})
     if isinstance(v, dict):
         return {k: cp(x) for k, x in v.items()}
     return v
+
+
+def missing_variants(w, depth=0):
+    """Dict values as dict subclasses that answer lookups of absent keys (`__missing__`):
+    defaultdict inserts a default on `d[k]`, Counter returns 0 without inserting.  The whole
+    dict and the dict minus each key, at the top level and one level down."""
+    out = []
+    if isinstance(w, dict):
+        subsets = [dict(w)] + [{k: x for k, x in w.items() if k != drop} for drop in list(w)[:3]]
+        for sub in subsets:
+            out.append(collections.defaultdict(int, {k: cp(x) for k, x in sub.items()}))
+            out.append(collections.defaultdict(list, {k: cp(x) for k, x in sub.items()}))
+            out.append(collections.Counter({k: cp(x) for k, x in sub.items()}))
+        if depth < 1:
+            for k, x in w.items():
+                for y in missing_variants(x, depth + 1)[:4]:
+                    d = cp(w)
+                    d[k] = y
+                    out.append(d)
+    elif isinstance(w, list) and depth < 1:
+        for j, x in enumerate(w[:3]):
+            for y in missing_variants(x, depth + 1)[:4]:
+                d = cp(w)
+                d[j] = y
+                out.append(d)
+    return out
 
 
 def perturb(v, nested=True):
@@ -148,6 +178,10 @@ def value_universe(t, limit=None):
     """V(T) = witnesses, their perturbations, boundaries, unrelated.  Returns (values, capped)."""
     ws = M.witnesses(t)
     vals = [cp(w) for w in ws]
+    nhead = len(vals)
+    for w in ws[:3]:
+        vals += missing_variants(w)
+    nhead = len(vals)
     for w in ws:
         vals += perturb(w)
     vals += boundary(t)
@@ -156,8 +190,9 @@ def value_universe(t, limit=None):
     capped = False
     if limit is not None and len(vals) > limit:
         # keep witnesses and unrelated, thin the perturbations evenly (deterministic)
-        head = vals[:len(ws)]
-        rest = vals[len(ws):]
+        nhead = min(nhead, limit // 2)
+        head = vals[:nhead]
+        rest = vals[nhead:]
         step = len(rest) / (limit - len(head))
         picked = [rest[int(i * step)] for i in range(limit - len(head))]
         vals = head + picked
